@@ -189,6 +189,16 @@ def _r03d(rep):
                      f"the block '{core.norm(core.src(part), 60)}' of the reciprocal operations holds the direct rotations untransposed: such an operation is not an isometry of the reciprocal lattice unless the basis is orthogonal, so the spectrum at R q differs from that at q (non-centrosymmetric crystals in hexagonal axes or primitive bases of centred lattices)", line=st.lineno)
 
 
+_run_main = run
+
+
+def run(rep: core.Report):
+    from rules import shared_trunc
+
+    _run_main(rep)
+    shared_trunc.run(rep, "R03e")
+
+
 def selftest():
     V = []
     b = lambda name, file, old, new, rule, expect="", **kw: V.append(dict(name=name, kind="break", file=file, old=old, new=new, rule=rule, expect=expect, **kw))
@@ -205,4 +215,7 @@ def selftest():
     b("derivative symmetrisation starts at the component index", DDM, "        for (j = 0; j < num_patom * 3; j++) {\n            for (k = 0; k < num_patom * 3; k++) {\n                adrs = i * num_patom * num_patom * 9", "        for (j = i; j < num_patom * 3; j++) {\n            for (k = 0; k < num_patom * 3; k++) {\n                adrs = i * num_patom * num_patom * 9", "R03a", "visits every pair")
     V.append(dict(name="derivative symmetrisation over the upper triangle", kind="neutral", file=DDM, old="            for (k = 0; k < num_patom * 3; k++) {\n                adrs = i * num_patom * num_patom * 9", new="            for (k = j; k < num_patom * 3; k++) {\n                adrs = i * num_patom * num_patom * 9"))
     b("unit cell masses not updated", API, "        self._unitcell.set_masses(u_masses)\n", "", "R03c", "set_masses")
+    from rules import shared_trunc
+
+    shared_trunc.variants(b, None, "R03e")
     return V
